@@ -21,6 +21,7 @@
 
 #include <cmath>
 
+#include <sys/socket.h>
 #include <unistd.h>
 
 #include <algorithm>
@@ -229,6 +230,18 @@ ssize_t Util::readFull(int fd, char* msg_buf, size_t count) {
 
 ssize_t Util::writeFull(int fd, const char* msg_buf, size_t count) {
   return wrapFull(::write, fd, msg_buf, count);
+}
+
+ssize_t Util::sendFull(int sockfd, const char* msg_buf, size_t count) {
+  // MSG_NOSIGNAL: a peer that is gone already yields EPIPE instead of a
+  // SIGPIPE, whose default action would terminate the whole process
+  return wrapFull(
+      [](int fd, const char* buf, size_t n) {
+        return ::send(fd, buf, n, MSG_NOSIGNAL);
+      },
+      sockfd,
+      msg_buf,
+      count);
 }
 
 std::string Util::generateUuid() {
